@@ -61,6 +61,11 @@ SENTINELS = {"bin:<:c8,u8", "bin:>=:i16,u16", "bin:==:c8,u16", "unary:-:u8", "un
 
 
 # ------------------------------------------------------------------ AST helpers for the systematic probes
+PREC_SENTINELS = {"prec:%s:%s:%s" % (a, b, sh) for a, b in (("==", "<"), ("<", "=="), ("&", "=="), ("==", "&"), ("<<", "+"), ("+", "<<"),
+                                                               ("^", "&"), ("|", "^"), ("&&", "|"), ("||", "&&"), ("-", "-"), ("/", "*"),
+                                                               ("<", "<<"), ("%", "-"), ("-", "/")) for sh in "lr"}
+
+
 def V(n):
     return {"k": "var", "n": n}
 
@@ -227,6 +232,30 @@ def probes():
                    PROG([FN("f", "u64", [("a", "u8")], stmts + [RET(e)])], [{"n": "gs", "struct": fl, "init": list(range(1, k + 1))}]), True)
 
 
+def prec_probes():
+    """Precedence and associativity: for every ordered pair of binary operators both tree shapes of
+    `a op1 b op2 k`, written with only the parentheses the C grammar requires (prog["minparen"]), so that the
+    parser's priority table decides which tree ppci builds; plus unary / cast / conditional against binary."""
+    ops = BIN_OPS
+    for i, op1 in enumerate(ops):
+        for j, op2 in enumerate(ops):
+            k = L(3 if op2 in ("/", "%", "<<", ">>") else 5, "u32")
+            for shape, e in (("l", B(op2, B(op1, V("a"), V("b")), k)), ("r", B(op1, V("a"), B(op2, V("b"), k)))):
+                prog = PROG([FN("f", "u64", [("a", "u32"), ("b", "u32")], [RET(e)])])
+                prog["minparen"] = True
+                yield ("prec:%s:%s:%s" % (op1, op2, shape), prog, True)
+    for op in ops:
+        for name, e in (("neg-left", B(op, U("-", V("a")), V("b"))), ("neg-all", U("-", B(op, V("a"), V("b")))),
+                        ("not-left", B(op, U("!", V("a")), V("b"))), ("cast-left", B(op, CAST("u8", V("a")), V("b"))),
+                        ("cast-all", CAST("u8", B(op, V("a"), V("b")))),
+                        ("cond-in", {"k": "cond", "c": B(op, V("a"), V("b")), "a": V("a"), "b": V("b")}),
+                        ("cond-left", B(op, {"k": "cond", "c": V("a"), "a": V("b"), "b": L(7, "u32")}, V("b"))),
+                        ("cond-right", B(op, V("a"), {"k": "cond", "c": V("b"), "a": V("a"), "b": L(7, "u32")}))):
+            prog = PROG([FN("f", "u64", [("a", "u32"), ("b", "u32")], [RET(e)])])
+            prog["minparen"] = True
+            yield ("prec:%s:%s" % (op, name), prog, True)
+
+
 def probe_vectors(f, small_b, rng, n):
     ps = f["params"]
     cands = []
@@ -246,6 +275,11 @@ def probe_vectors(f, small_b, rng, n):
 # ------------------------------------------------------------------ items
 def make_item(key, prog, vecs, ext, kind):
     f = [x for x in prog["funcs"] if x["n"] == prog["main"]][0]
+    # every second program (by key) is written with only the parentheses the C grammar requires, so that the
+    # parser's precedence / associativity table is part of what is judged (render_gcc_main renders the same way)
+    import zlib
+    if zlib.crc32(key.encode()) & 1:
+        prog["minparen"] = True
     return {"key": key, "prog": prog, "f": f, "vecs": vecs, "ext": ext, "kind": kind, "src": absprog.render_c(prog)}
 
 
@@ -751,14 +785,14 @@ class Engine:
         model_check(ctx)
 
         # ---- stage 1: systematic probes -------------------------------------------------------------
-        allp = list(probes())
+        allp = list(probes()) + list(prec_probes())
         if thorough:
             chosen = allp
         else:
             # quick: the sentinels (one or two per construct class that the random stage may have to avoid)
             # with 24 vectors + a seeded sample of the rest; the thorough tier runs every probe
-            rest = [p for p in allp if p[0] not in SENTINELS]
-            chosen = [p for p in allp if p[0] in SENTINELS] + \
+            rest = [p for p in allp if p[0] not in SENTINELS and p[0] not in PREC_SENTINELS]
+            chosen = [p for p in allp if p[0] in SENTINELS or p[0] in PREC_SENTINELS] + \
                      [rest[k] for k in sorted(ctx.rng.sample(range(len(rest)), min(QUICK_PROBES, len(rest))))]
         items = []
         for key, prog, small in chosen:
